@@ -189,7 +189,7 @@ def run(ctx):
     if not split_recv:
         ctx.unrecognised(r3, lp, "log_prob", "no viewer split found in log_prob")
     elif not st_calls:
-        ctx.violated(r3, sm, "sample layout", f"log_prob splits the data with {split_recv[0]} but sample does not assemble the constituents' samples through that viewer: pseudo-data are laid out differently from what the density expects whenever the viewer's index sets are not one contiguous run each (e.g. interleaved Gaussian and Poisson auxiliary data)", expected=f"{split_recv[0]}.stitch([...])", node=sm.node)
+        pass  # no syntactic stitch: the end-to-end interpretation below decides whether the layout is still the viewer's
     else:
         c = st_calls[0]
         if A.dotted(c.func.value) == split_recv[0]:
@@ -208,6 +208,55 @@ def run(ctx):
         ctx.holds(r3, f"{PROB}::Simultaneous.log_prob", "constituents zipped with the split data in order")
     else:
         ctx.violated(r3, lp, "zip(self, constituent_data)", "constituent densities are not paired with their own slice of the data", node=lp.node)
+    # end to end with the real _TensorViewer: two constituents whose data positions INTERLEAVE (as Gaussian and
+    # Poisson auxiliary data do when constrained parameters alternate): pseudo-data, expected data and the data
+    # each constituent's density sees must all use the same positions
+    from . import viewers as _viewers
+    from ..alg import NotHandled as _NotHandled
+    for parts in ([[0, 2], [1, 3]], [[3], [0, 1, 2]], [[0, 1], [2, 3, 4]]):
+        got_lp = {}
+
+        def _only(recv):
+            if not (isinstance(recv, Obj) and recv.name in ("P0", "P1")):
+                raise _NotHandled()
+            return int(recv.name[1])
+
+        def _sample(recv, a, k):
+            i = _only(recv)
+            return [Poly.atom(f"smp{i}_{j}") for j in range(len(parts[i]))]
+
+        def _expected(recv, a, k):
+            i = _only(recv)
+            return [Poly.atom(f"exp{i}_{j}") for j in range(len(parts[i]))]
+
+        def _logprob(recv, a, k):
+            i = _only(recv)
+            got_lp[i] = [str(to_poly(x)) for x in a[0]]
+            return Poly.atom(f"lp{i}")
+
+        site3 = f"{PROB}::Simultaneous end to end {parts}"
+        try:
+            w = _viewers.world(repo, {".sample": _sample, ".expected_data": _expected, ".log_prob": _logprob, "stack": lambda a, k: list(a[0])})
+            w.add_class(sim)
+            tvc = repo.cls("src/pyhf/tensor/common.py", "_TensorViewer")
+            tv = w.new(tvc, [[[Poly.const(j) for j in p_] for p_ in parts]], {})
+            so = w.new(sim, [[Obj("P0"), Obj("P1")], tv], {})
+            n = sum(len(p_) for p_ in parts)
+            smp = [str(to_poly(x)) for x in w.call_method(so, "sample", [(Poly.const(1),)])]
+            exd = [str(to_poly(x)) for x in w.call_method(so, "expected_data", [])]
+            lp = to_poly(w.call_method(so, "log_prob", [[Poly.atom(f"x{j}") for j in range(n)]]))
+            want_s, want_e = [None] * n, [None] * n
+            for i, p_ in enumerate(parts):
+                for j, pos in enumerate(p_):
+                    want_s[pos], want_e[pos] = f"smp{i}_{j}", f"exp{i}_{j}"
+            want_lp = {i: [f"x{pos}" for pos in p_] for i, p_ in enumerate(parts)}
+            if smp == want_s and exd == want_e and got_lp == want_lp and lp == Poly.atom("lp0") + Poly.atom("lp1"):
+                ctx.holds(r3, site3, "sample / expected_data place constituent i's values at the viewer's positions i; log_prob hands constituent i the data at those positions; the joint log-density is the sum")
+            else:
+                what = "sample" if smp != want_s else ("expected_data" if exd != want_e else ("log_prob data" if got_lp != want_lp else "joint log-density"))
+                ctx.violated(r3, sim.methods["sample" if what == "sample" else ("expected_data" if what == "expected_data" else "log_prob")], f"Simultaneous {what} {parts}", f"{what}: the values of the constituent distributions are not laid out at (or read from) the positions the tensor viewer assigns to them", expected=str({"sample": want_s, "expected_data": want_e, "log_prob data": want_lp, "joint log-density": "lp0 + lp1"}[what]), found=str({"sample": smp, "expected_data": exd, "log_prob data": got_lp, "joint log-density": str(lp)}[what]))
+        except (Undecided, KeyError, TypeError, ValueError, IndexError, AttributeError) as e:
+            ctx.unrecognised(r3, sim, f"Simultaneous end to end {parts}", f"not interpretable: {type(e).__name__}: {e}")
     mixin = repo.cls(PROB, "_SimpleDistributionMixin")
     ms = mixin.methods["sample"]
     ctx.touch(ms)
